@@ -212,9 +212,16 @@ def r5_length_domain(ctx, rule):
         ctx.ok(rule, FOL, 'training, third pass, scorer and guesser accept ngram <= len <= #LN lines', facts)
 
 
+_OMEN_READERS = ('lib_guesser/omen/input_file_io.py::_load_ngrams', 'lib_guesser/omen/input_file_io.py::_load_alphabet',
+                 'lib_scorer/omen_scorer.py::OmenScorer._load_omen')
+
+
 def rules(tier):
     return [('C11.R1', r1_formula_skeleton), ('C11.R2', r2_ln_offset), ('C11.R3', r3_cp_count), ('C11.R5', r5_length_domain),
-            ('C11.R6', c07.r5_strip_discipline), ('C11.R7', c07.r3_record_layout), ('C11.R8', lambda c, r: c07.r2_encoding_agreement(c, r))]
+            ('C11.R6', lambda c, r: c07.r5_strip_discipline(c, r, only=_OMEN_READERS, floor=4)),
+            ('C11.R7', lambda c, r: c07.r3_record_layout(c, r, scope='omen')),
+            ('C11.R8', lambda c, r: c07.r2_encoding_agreement(c, r, file_filter=lambda fid: fid[0] == 'Omen' and fid[-1] in
+                                                               ('IP.level', 'CP.level', 'LN.level', 'alphabet.txt'), floor=6))]
 
 
 META = {
